@@ -96,7 +96,14 @@ def write(prop, tier, seed, jobs, results, wall, nviol, knownhits):
         "violations": nviol,
     }
     if obligations == 0:
-        # proof-level keys need >=1; fall back to explanation-only
-        doc["coverage"]["obligations"] = 0
+        # no contract obligation in this run (bounded stand-ins only): the record is honest about that - level "other",
+        # the bounded obligations are reported under bounded_obligations and never as proved ones
+        doc["level"] = "other"
+        del doc["coverage"]["obligations"]
+        del doc["coverage"]["discharged"]
+        doc["coverage"]["explanation"] = ("this run holds bounded stand-ins only (CBMC bounded model checking of the real functions, "
+                                          "all inputs symbolic within the stated bounds, unwinding assertions on): %d obligations checked within "
+                                          "the bounds listed under bounded_jobs, none of them counted as proved; see assumptions" %
+                                          doc["coverage"]["bounded_obligations"])
     os.makedirs(os.path.join(VERIF, "evidence"), exist_ok=True)
     json.dump(doc, open(os.path.join(VERIF, "evidence", prop + ".json"), "w"), indent=1, default=str)
